@@ -150,3 +150,67 @@ def compare_symbolic(ar, snippet, st0):
     for i in range(0, SPSIZE, 8):
         if sp_after[i:i + 8] != ar.sp0[i:i + 8] and not any((i + k) in fin.upd for k in range(8)): diffs.append('cpu wrote scratchpad[%d..] which the model did not' % i); break
     return diffs
+
+# ---------------------------------------------------------------- X1: a whole compiled program function, host CPU vs model
+def program_compare(shim, seed, v2, iters, flags_of):
+    """the real JIT compiles a random program (full mode, hardware AES); the program function runs `iters` iterations natively and in the model
+    (concrete mode, same code bytes, same register file / scratchpad / dataset content); register file and scratchpad must agree"""
+    import mmap as _mmap
+    from spec import params as P
+    rnd = random.Random(seed); lib()
+    prog = rnd.randbytes(128 + 8 * 384)
+    cfg = (ctypes.c_uint64 * 4)()
+    for l in range(2): cfg[l] = (rnd.getrandbits(22)) | ((0x300 | rnd.getrandbits(4) << 4 | rnd.getrandbits(4)) << 52)
+    rr = [2 * k + rnd.getrandbits(1) for k in range(4)]; cfg[2] = rr[0] | (rr[1] << 32); cfg[3] = rr[2] | (rr[3] << 32)
+    flags = flags_of(v2)
+    code = ctypes.POINTER(ctypes.c_uint8)(); size = ctypes.c_size_t()
+    shim.verif_jit_program.restype = ctypes.c_void_p
+    jit = shim.verif_jit_program(prog, len(prog), flags, cfg, ctypes.byref(code), ctypes.byref(size))
+    cb = ctypes.string_at(code, size.value)
+    # initial state
+    import struct
+    reg0 = bytearray(256)
+    for k in range(4):
+        for l in range(2): struct.pack_into('<d', reg0, 192 + 16 * k + 8 * l, rnd.uniform(1.0, 2.0) * 2.0 ** rnd.randint(0, 31))
+    mx = rnd.getrandbits(32); ma = rnd.getrandbits(32) & ~63; dso = 64 * rnd.randrange(0, P.DATASET_EXTRA // 64 + 1)
+    sp0 = rnd.randbytes(SPSIZE); dskey = rnd.getrandbits(32) | 1
+    dsbyte = lambda off: ((off * dskey) >> 13) & 0xff
+    # ---- model
+    mem = Mem(); mem.alloc(len(cb), 'xcode'); mem.objs['xcode']['default'] = lambda off: cb[off]
+    mem.alloc(SPSIZE, 'sp'); mem.objs['sp']['default'] = lambda off: sp0[off]
+    DS = P.DATASET_BASE + P.DATASET_EXTRA; mem.alloc(DS, 'dataset'); mem.objs['dataset']['default'] = dsbyte
+    mem.alloc(256, 'regfile'); mem.objs['regfile']['default'] = lambda off: reg0[off]
+    mem.alloc(16, 'memregs'); mem.store(Ptr('memregs', 0), mx, 4); mem.store(Ptr('memregs', 4), ma, 4); mem.store(Ptr('memregs', 8), Ptr('dataset', dso), 8)
+    STK = 1032; mem.alloc(STK + 64, 'stack'); mem.objs['stack']['default'] = lambda off: 0; mem.store(Ptr('stack', STK), Ptr('caller', 0), 8)
+    m = x86sem.Machine(mem, 'xcode')
+    for r in range(16): m.gpr[r] = rnd.getrandbits(64)
+    m.gpr[7] = Ptr('regfile', 0); m.gpr[6] = Ptr('memregs', 0); m.gpr[2] = Ptr('sp', 0); m.gpr[1] = iters; m.gpr[4] = Ptr('stack', STK)
+    for x in range(16): m.xmm[x] = [rnd.getrandbits(64), rnd.getrandbits(64)]
+    m.mxcsr = 0x1F80
+    r = m.run(0, max_steps=iters * 6000 + 2000)
+    if not (r[0] == 'ret' and isinstance(r[1], Ptr) and r[1].obj == 'caller'): return ['model: program function ended with %s' % (r,)], 0
+    steps = getattr(m, 'nsteps', 0)
+    # ---- native
+    dsmap = _mmap.mmap(-1, DS + 4096, flags=_mmap.MAP_PRIVATE | _mmap.MAP_ANONYMOUS | getattr(_mmap, 'MAP_NORESERVE', 0x4000))
+    dsaddr = ctypes.addressof(ctypes.c_char.from_buffer(dsmap)); lines = set()
+    for (kd, obj, off, nb) in m.accesses:
+        if obj == 'dataset' and is_c(off): lines.add(off & ~63)
+    for ln in lines: dsmap[ln:ln + 64] = bytes(dsbyte(ln + k) for k in range(64))
+    regb = ctypes.create_string_buffer(bytes(reg0), 256); spb = ctypes.create_string_buffer(sp0, SPSIZE)
+    mr = (ctypes.c_uint64 * 2)(); mr[0] = mx | (ma << 32); mr[1] = dsaddr + dso
+    shim.verif_jit_run(ctypes.c_void_p(jit), regb, mr, spb, ctypes.c_uint64(iters))
+    shim.verif_jit_free(ctypes.c_void_p(jit))
+    diffs = []
+    for off in range(0, 256, 8):
+        v = mem.load(Ptr('regfile', off), 8); nv = int.from_bytes(regb.raw[off:off + 8], 'little')
+        if not is_c(v) or v != nv: diffs.append('register file +%d: cpu %#x model %s' % (off, nv, hex(v) if is_c(v) else 'symbolic'))
+    o = mem.objs['sp']; exp = bytearray(sp0); touched = set(o['bytes'])
+    for off, (v, sz) in o['ch'].items(): touched.update(range(off, off + sz))
+    for off in touched:
+        b = mem.load(Ptr('sp', off), 1)
+        if not is_c(b): diffs.append('scratchpad byte %d symbolic in the model' % off); break
+        exp[off] = b
+    if bytes(exp) != spb.raw:
+        k = next(j for j in range(SPSIZE) if exp[j] != spb.raw[j]); diffs.append('scratchpad[%d]: cpu %#x model %#x' % (k, spb.raw[k], exp[k]))
+    del dsmap
+    return diffs, len(lines)
